@@ -209,7 +209,105 @@ func genRandom(t *rapid.T) Case {
 
 const rule = "non-trivial = the record has at least one member that is not a plain valid call with a simple id (a defect, a notification, an exotic id, a non-object, a batch, a reply-shaped member or a top-level parse error / empty batch); distinct = (server flags, record bytes of the whole group)"
 
+// runBurst delivers all records back to back over a channel whose Send shares
+// one frame buffer (what the stream framings do), so that the server answers
+// several of them at once.  Replies cannot be attributed to records here; what
+// is judged is the last clause of C02 and the counts: every outbound record is
+// a valid JSON-RPC 2.0 response (or batch of them), and for every id the
+// number of responses lies between what the records demand and what they allow.
+func runBurst(t *testing.T, c Case) engine.Verdict {
+	sc := sim.Scenario{Cfg: sim.Config{AllowPush: c.AllowPush, DisableBuiltin: c.DisableBuiltin, Salt: c.Salt, Concurrency: 4, Chan: "fragile", NoHooks: c.Salt%2 == 0, Yield: 1}}
+	cfg := cfgOf(Case{AllowPush: c.AllowPush, DisableBuiltin: c.DisableBuiltin})
+	must, may := map[string]int{}, map[string]int{}
+	for _, r := range c.Records {
+		exp := refrpc.Classify(cfg, r)
+		if skip(exp) {
+			continue
+		}
+		sc.Steps = append(sc.Steps, sim.Step{Op: "send", Rec: r, Burst: true})
+		switch exp.Top {
+		case "parse-error", "empty-batch":
+			must["null"]++
+			continue
+		}
+		for _, m := range exp.Members {
+			id := m.Echo
+			if strings.HasPrefix(id, `"`) || m.DontCare != "" {
+				id = "*" // strings may be re-encoded; uncertain members may answer under another id
+			}
+			switch m.Reply {
+			case refrpc.ErrorReply, refrpc.HandlerReply, refrpc.InfoReply:
+				must[id]++
+			case refrpc.AnyReply:
+				may[id]++
+			}
+		}
+	}
+	if len(sc.Steps) == 0 {
+		return engine.Verdict{Labels: []string{"skipped:nothing-to-send"}}
+	}
+	sc.Steps[len(sc.Steps)-1].Burst = false
+	h := sim.Run(t, sc)
+	if h.BubbleErr != "" {
+		return engine.Failf("C02/stuck", "the scenario did not end cleanly: %s", h.BubbleErr)
+	}
+	got := map[string]int{}
+	for _, e := range h.Events {
+		if e.Kind != "wire" {
+			continue
+		}
+		items, _, err := refrpc.SplitReply([]byte(e.Data))
+		if err != nil {
+			return engine.Failf("C02/malformed-response", "the server emitted %s: %v", engine.Q([]byte(e.Data)), err)
+		}
+		for _, it := range items {
+			r, err := refrpc.ParseResponse(it)
+			if err != nil {
+				return engine.Failf("C02/malformed-response", "the server emitted %s: %v", engine.Q(it), err)
+			}
+			id := r.ID
+			if strings.HasPrefix(id, `"`) {
+				id = "*"
+			}
+			got[id]++
+		}
+	}
+	// strings and uncertain members are pooled under "*": compare totals there
+	total := func(m map[string]int) (n int) {
+		for _, v := range m {
+			n += v
+		}
+		return
+	}
+	if may["*"] == 0 && must["*"] == 0 {
+		for id, n := range must {
+			if got[id] < n || got[id] > n+may[id] {
+				return engine.Failf("C02/response-count", "id %s: %d responses, the records demand %d and allow %d more (all: got %v must %v may %v)", id, got[id], n, may[id], got, must, may)
+			}
+		}
+		for id, n := range got {
+			if n > must[id]+may[id] {
+				return engine.Failf("C02/response-count", "id %s: %d responses, the records demand %d and allow %d more (all: got %v must %v may %v)", id, n, must[id], may[id], got, must, may)
+			}
+		}
+	} else if g := total(got); g < total(must) || g > total(must)+total(may) {
+		return engine.Failf("C02/response-count", "%d responses, the records demand %d and allow %d more", g, total(must), total(may))
+	}
+	return engine.Verdict{NonTrivial: len(sc.Steps) >= 3, Labels: []string{"burst", fmt.Sprintf("records:%d", min(len(sc.Steps), 6))}}
+}
+
+func genBurst(t *rapid.T) Case {
+	c := genBatch(t)
+	c.Callbacks = 0
+	for len(c.Records) < 3 {
+		c.Records = append(c.Records, genBatch(t).Records...)
+	}
+	return c
+}
+
 var parts = []engine.AnyPart{
+	engine.Part[Case]{Name: "burst", Run: runBurst, Gen: genBurst,
+		Rule: "three or more generated records delivered back to back over a channel whose Send shares one frame buffer, so that several are answered at once: every outbound record must be a valid JSON-RPC 2.0 response or batch of them, and per id the number of responses must lie between what the records demand and what they allow; non-trivial = at least three records sent; distinct = the case"},
 	engine.Part[Case]{Name: "product", Run: run, Enum: enumProduct,
 		Rule:           "EVERY combination of per-field variants jsonrpc(7) x id(12) x method(9) x params(8) x extra(5) = 30240 request objects, each sent as a single record followed by a liveness probe, on a plain and a push-enabled server (thorough: also with DisableBuiltin); " + rule,
 		EnumExhaustive: "the complete product of field variants as single-member records"},
